@@ -4,8 +4,9 @@ use quote::quote;
 use std::fmt::Display;
 use structmeta::StructMeta;
 use syn::{
-    parse2, parse_quote, spanned::Spanned, Error, GenericArgument, Ident, ImplItem, ItemImpl, Path,
-    PathArguments, PathSegment, Result, Type,
+    parse2, parse_quote, spanned::Spanned, BoundLifetimes, Error, GenericArgument, GenericParam,
+    Generics, Ident, ImplItem, ItemImpl, Path, PathArguments, PathSegment, Result, Type,
+    TypeParamBound, WherePredicate,
 };
 
 #[derive(StructMeta, Debug)]
@@ -128,7 +129,7 @@ pub fn build_by_item_impl(attr: TokenStream, item_impl: &ItemImpl) -> Result<Tok
     let (this, this_is_ref) = to_ref_elem(this_orig);
     let rhs_orig = to_rhs(s, this_orig);
     let (rhs, rhs_is_ref) = to_ref_elem(&rhs_orig);
-    let g = expand_self(&item_impl.generics, this_orig);
+    let g = expand_self_in_generics(&item_impl.generics, this_orig);
     let (impl_g, _, where_g) = &g.split_for_impl();
 
     let op = Op::from_ident(&s.ident)?;
@@ -227,6 +228,49 @@ pub fn build_by_item_impl(attr: TokenStream, item_impl: &ItemImpl) -> Result<Tok
         bail!(_, "{}", format!("dump:\n{ts}"));
     }
     Ok(ts)
+}
+/// Replaces `Self` in the generics of the user's impl.
+///
+/// The `Self` of `impl ... for &T` has an anonymous lifetime, which can be written only in the
+/// impl header: bounds mentioning it become higher-ranked (`for<'__a> &'__a T: Trait`).
+fn expand_self_in_generics(generics: &Generics, self_ty: &Type) -> Generics {
+    let mut to = self_ty.clone();
+    match &mut to {
+        Type::Reference(tr) if tr.lifetime.is_none() => tr.lifetime = Some(parse_quote!('__a)),
+        _ => return expand_self(generics, self_ty),
+    }
+    fn add_lifetime(lifetimes: &mut Option<BoundLifetimes>) {
+        match lifetimes {
+            Some(l) => l.lifetimes.push(parse_quote!('__a)),
+            None => *lifetimes = Some(parse_quote!(for<'__a>)),
+        }
+    }
+    let mut g = generics.clone();
+    for param in &mut g.params {
+        if let GenericParam::Type(param) = param {
+            for bound in &mut param.bounds {
+                if let TypeParamBound::Trait(bound) = bound {
+                    let expanded = expand_self(bound, &to);
+                    if expanded != *bound {
+                        *bound = expanded;
+                        add_lifetime(&mut bound.lifetimes);
+                    }
+                }
+            }
+        }
+    }
+    if let Some(where_clause) = &mut g.where_clause {
+        for pred in &mut where_clause.predicates {
+            let expanded = expand_self(pred, &to);
+            if expanded != *pred {
+                *pred = expanded;
+                if let WherePredicate::Type(pred) = pred {
+                    add_lifetime(&mut pred.lifetimes);
+                }
+            }
+        }
+    }
+    g
 }
 fn find_output_type(item_impl: &ItemImpl) -> Result<&Type> {
     for item in &item_impl.items {
